@@ -59,6 +59,13 @@ func H_C09_long_strings() {
 	got, err := decodeStringValue(vReader(bs), _tagRead)
 	vAssert("decode-noerr", err == nil)
 	vAssert("roundtrip", got == s)
+	// followed by another value: the string must consume exactly its own characters
+	out, err := ToObject(refCat([]byte{0x78 + 2}, bs, refInt(7)), nil)
+	l, ok := out.([]interface{})
+	vAssert("framing", err == nil && ok && len(l) == 2)
+	g0, ok0 := l[0].(string)
+	g1, ok1 := l[1].(int32)
+	vAssert("framing-values", ok0 && ok1 && g0 == s && g1 == 7)
 }
 
 var zBinLensQuick = []int{0, 1, 15, 16, 17, 1023, 1024, 4095, 4096, 4097, 8193}
@@ -89,6 +96,12 @@ func H_C09_binaries() {
 	got, err := decodeBinaryValue(vReader(bs), _tagRead)
 	vAssert("decode-noerr", err == nil)
 	vAssert("roundtrip", eqBytes(got, b))
+	out, err := ToObject(refCat([]byte{0x78 + 2}, bs, refInt(7)), nil)
+	l, ok := out.([]interface{})
+	vAssert("framing", err == nil && ok && len(l) == 2)
+	g0, ok0 := l[0].([]byte)
+	g1, ok1 := l[1].(int32)
+	vAssert("framing-values", ok0 && ok1 && eqBytes(g0, b) && g1 == 7)
 }
 
 type ZText struct {
